@@ -231,7 +231,7 @@ class Ctx:
         self.coverage_actions[name] = acts
 
     # ------------------------------------------------------- trace validation
-    def validate_trace(self, tladir, module, cfg, trace, *, timeout=1800, xmx="4g", name=None):
+    def validate_trace(self, tladir, module, cfg, trace, *, timeout=1800, xmx="4g", name=None, extra_env=None):
         """code -> spec: TLC checks that the recorded trace is a behaviour of the Trace_* spec.
         The spec prints <<"ACCEPTED", "n">> or <<"REJECTED", "{...}">> from its POSTCONDITION."""
         name = name or ("trace_" + module)
@@ -239,6 +239,7 @@ class Ctx:
                "JAVA_TOOL_OPTIONS": "-Dtlc2.tool.queue.IStateQueue=StateDeque"}
         if os.environ.get("KNOWN"):
             env["KNOWN"] = os.environ["KNOWN"]
+        env.update(extra_env or {})
         r = self.tlc(tladir, module, cfg, workers=1, timeout=timeout, xmx=xmx, env=env,
                      name=name, allow_violation=True)
         # trace runs do not count as model states
